@@ -110,7 +110,7 @@ def distinct_field_keys(entry):
 @contract(RE + "transform_string")
 class _:
     sorts = {"self": "ref:RemoveEnclosingMiddleware", "string": "ref:String", "library": "ref:Library", "result": "ref:String"}
-    requires = {"value-str": "isstr(string._value)"}
+    requires = {"value-str": "isstr(string._value)", "meta-dict": "not isnone(string._parser_metadata)"}
     ensures = {
         "C10.string-stripped": "isstr(string._value) and sval(string._value) == strip_text(sval(old(string._value)).strip())",
         "C10.string-recorded": "string._parser_metadata['removed_enclosing'] == strip_kind(sval(old(string._value)).strip())",
@@ -126,7 +126,7 @@ class _:
     """every field value loses exactly one enclosing layer; the removed kind is recorded per field key"""
     sorts = {"self": "ref:RemoveEnclosingMiddleware", "entry": "ref:Entry", "library": "ref:Library", "result": "ref:Entry"}
     requires = {"values-str": "forall(j, 0 <= j < len(entry._fields), isstr(entry._fields[j]._value))",
-                "distinct-fields": "distinct_fields(entry)", "distinct-keys": "distinct_field_keys(entry)"}
+                "distinct-fields": "distinct_fields(entry)", "distinct-keys": "distinct_field_keys(entry)", "meta-dict": "not isnone(entry._parser_metadata)"}
     locals = {"metadata": "dict:str:any"}
     loops = {1: {"cursor": "_i", "iter_name": "flds",
                  "invariant": {
@@ -152,7 +152,7 @@ class _:
 class _:
     sorts = {"self": "ref:AddEnclosingMiddleware", "string": "ref:String", "result": "ref:String"}
     requires = {"default-valid": "self._default_enclosing == '{' or self._default_enclosing == '\"'",
-                "value-kind": "isstr(string._value) or isint(string._value)",
+                "value-kind": "isstr(string._value) or isint(string._value)", "meta-dict": "not isnone(string._parser_metadata)",
                 "meta-kind": "not ('removed_enclosing' in string._parser_metadata) or isstr(string._parser_metadata['removed_enclosing'])",
                 "meta-valid": "not ('removed_enclosing' in string._parser_metadata) or sval(string._parser_metadata['removed_enclosing']) == '{' or sval(string._parser_metadata['removed_enclosing']) == '\"' or sval(string._parser_metadata['removed_enclosing']) == 'no-enclosing'"}
     ensures = {
@@ -208,6 +208,7 @@ class _:
     requires = {"default-valid": "self._default_enclosing == '{' or self._default_enclosing == '\"'",
                 "values-kind": "forall(j, 0 <= j < len(entry._fields), isstr(entry._fields[j]._value) or isint(entry._fields[j]._value))",
                 "distinct-fields": "distinct_fields(entry)",
+                "meta-dict": "not isnone(entry._parser_metadata)",
                 "meta-ok": "field_meta_ok(entry)"}
     loops = {1: {"cursor": "_i", "iter_name": "flds",
                  "invariant": {
